@@ -90,7 +90,7 @@ let () =
        | [] -> ()
        | opc :: rest ->
          let rec args r = match r with [] -> [] | _ -> let (a, r') = parse r in a :: args r' in
-         let (st', a) = exec (n_of_int (int_of_string opc)) (args rest) !st in
+         let (st', a) = exec_traced (n_of_int (int_of_string opc)) (args rest) !st in
          st := st';
          let buf = Buffer.create 256 in
          print buf a;
